@@ -173,6 +173,8 @@ class Run:
     def model_check(self, cwd, module, cfg=None, expect_ok=True, **kw):
         """Exhaustive (or simulated) run of a design-level configuration. A failure here is a modelling/tool
         problem, never a verdict about the code."""
+        kw.setdefault("extra", [])
+        kw["extra"] = list(kw["extra"]) + ["-seed", str(self.seed)]
         res = self.tlc(cwd, module, cfg, tag="model_runs", **kw)
         if res["timeout"]:
             raise ToolFailure("TLC timed out on %s/%s" % (module, cfg))
